@@ -110,3 +110,23 @@ F("A33", "C01", L + "rsa_util.py", "  if n % 2 == 0:\n    return 2, n // 2", "  
 F("A34", "C01", L + "rsa_util.py", "  if a * a == n:\n    return a, a", "  if a * a <= n:\n    return a, a", "R-C01-CERT", "Fermat square guard weakened")
 F("A35", "C01", L + "rsa_util.py", "            return [s - d_sqrt, s + d_sqrt]", "            return [s - d_sqrt, s + d_sqrt + 2]", "R-C01-CERT", "HighLow: wrong second factor")
 T("A36", "C01", L + "special_case_factoring.py", "        if 1 < g < n:\n          return [g, n // g]", "        if g > 1 and g < n:\n          return [g, n // g]", "guard split")
+
+# ---------------------------------------------------------------------------------- C18
+F("D22", "C18", L + "ntheory_util.py", "  if not values:\n    # Empty batch: the empty product is 1 and T, an empty sum, is 0.\n    return [values], 0\n", "", "R-C18-EMPTY", "remove the empty-batch guard (fixed defect returns)")
+F("B25", "C18", L + "ec_single_checks.py", "      if not keys:\n        continue\n", "", "R-C18-EMPTY", "CheckWeakECPrivateKey: empty-partition guard removed")
+F("B26", "C18", L + "ec_single_checks.py", "      if curve is None:\n        # Skipping the test. CheckValidECKey already checks this.\n        continue\n", "", "R-C18-NULL", "CheckWeakCurve: None guard removed")
+F("B26b", "C18", L + "ec_single_checks.py", "      curve = ec_util.CURVE_FACTORY.get(key.ec_info.curve_type, None)\n      if curve is None:\n        logging.warning(\"Unknown curve",
+  "      curve = ec_util.CURVE_FACTORY[key.ec_info.curve_type]\n      if curve is None:\n        logging.warning(\"Unknown curve", "R-C18-NULL", "CheckValidECKey: .get -> [] (KeyError on unknown id)")
+F("B26c", "C18", L + "ecdsa_sig_checks.py", "class CheckCr50U2f(base_check.ECDSASignatureCheck):\n  \"\"\"Checks whether the signatures use weak nonces like in the CR50 U2F flaw.\"\"\"\n\n  def __init__(self):\n    super().__init__(paranoid_pb2.SeverityType.SEVERITY_CRITICAL)\n\n  def Check(self, artifacts: list[paranoid_pb2.ECDSASignature]) -> bool:\n    any_weak = False\n    for curve_id, curve in ec_util.CURVE_FACTORY.items():\n      if curve is None:\n        continue\n",
+  "class CheckCr50U2f(base_check.ECDSASignatureCheck):\n  \"\"\"Checks whether the signatures use weak nonces like in the CR50 U2F flaw.\"\"\"\n\n  def __init__(self):\n    super().__init__(paranoid_pb2.SeverityType.SEVERITY_CRITICAL)\n\n  def Check(self, artifacts: list[paranoid_pb2.ECDSASignature]) -> bool:\n    any_weak = False\n    for curve_id, curve in ec_util.CURVE_FACTORY.items():\n",
+  "R-C18-NULL", "CheckCr50U2f: None guard removed")
+T("D23", "C18", L + "ecdsa_sig_checks.py", "      sigs = [s for s in artifacts if s.issuer_key_info.curve_type == curve_id]\n      if not sigs:\n        continue\n      pks = _MapIssuerSigIndexes(sigs)\n      guesses = set()\n      for _, idxs in pks.items():\n        # Exclude duplicate signatures from the actual processing\n        unique_vals = list({\n            ec_util.ECDSAValues(sigs[idx].ecdsa_sig_info, curve) for idx in idxs\n        })\n        # Sliding",
+  "      sigs = [s for s in artifacts if s.issuer_key_info.curve_type == curve_id]\n      pks = _MapIssuerSigIndexes(sigs)\n      guesses = set()\n      for _, idxs in pks.items():\n        # Exclude duplicate signatures from the actual processing\n        unique_vals = list({\n            ec_util.ECDSAValues(sigs[idx].ecdsa_sig_info, curve) for idx in idxs\n        })\n        # Sliding",
+  "CheckCr50U2f: `if not sigs` removed - not load-bearing, no exception on the empty partition")
+F("D23b", "C18", L + "ecdsa_sig_checks.py", "    pks[ec_util.PublicPoint(sig.issuer_key_info)].append(i)\n  return pks", "    pks[ec_util.PublicPoint(sig.issuer_key_info)].append(i)\n  pks[(0, 0)] = []\n  return pks",
+  "R-C18-NONEMPTY-DICT", "issuer map gets an empty entry -> unique_vals[-1] IndexError")
+F("D23c", "C18", L + "rsa_single_checks.py", "        any_weak = True\n        test_result.result = True\n      util.SetTestResult(key.test_info, test_result)\n    return any_weak\n\n\nclass CheckROCA(",
+  "        any_weak = True\n        test_result.result = True\n      util.SetTestResult(key.test_info, test_result)\n    return any_weak or None\n\n\nclass CheckROCA(", "R-C18-BOOL", "CheckExponents returns None for healthy batches")
+F("D23d", "C18", L + "rsa_util.py", "  unique_values = list(set(values))\n  prod_tree, t = ntheory_util.ExtendedProductTree(unique_values)", "  unique_values = list(set(values))\n  first = unique_values[0]\n  prod_tree, t = ntheory_util.ExtendedProductTree(unique_values)",
+  "R-C18-EMPTY", "BatchGCD indexes the first element")
+F("D23e", "C18", L + "paranoid.py", "  any_weak = False\n  start_total = time.time()", "  any_weak = False\n  first_key = artifacts[0]\n  start_total = time.time()", "R-C18-EMPTY", "_CheckArtifacts touches artifacts[0]")
